@@ -214,6 +214,7 @@ class Acc:
         self.hangs = {}       # group -> confirmed hangs (watchdog expired twice)
         self.slow = {}        # group -> watchdog expiries whose case finished when re-run alone
         self.slow_msgs = []
+        self.adaptive = True  # tighten watchdogs from observed chunk durations (quick tier only)
 
 
 def parse_journal(path):
@@ -341,14 +342,16 @@ def run_child(exe, args, journal, timeout):
 
 
 def effective_timeout(acc, group, timeout):
-    """The group's declared chunk watchdog, tightened once the group has shown how long its chunks take:
-    40x the median duration of its completed chunks (at least 120 s).  Budgets stay case counts; this only bounds
+    """The group's declared chunk watchdog, tightened (quick tier) once the group has shown how long its chunks take:
+    40x the longest completed chunk (at least 120 s).  Budgets stay case counts; this only bounds
     how long a non-terminating case can hold a run up."""
+    if not acc.adaptive:
+        return timeout
     with acc.lock:
         d = sorted(acc.durations.get(group, []))
     if len(d) >= 3:
-        med = d[len(d) // 2]
-        return int(min(timeout, max(120.0, 40.0 * med)))
+        # 40x the LONGEST chunk seen so far (chunks of one group can differ a lot in weight), at least 120 s
+        return int(min(timeout, max(120.0, 40.0 * d[-1])))
     return timeout
 
 
@@ -580,6 +583,7 @@ def check(pid, tier, seed, only_group=None):
     shutil.rmtree(workdir, ignore_errors=True)
     os.makedirs(workdir)
     acc = Acc()
+    acc.adaptive = (tier == "quick")   # the thorough tier keeps the declared watchdogs: its chunks are long and uneven
     tasks = []
     for g in info["groups"]:
         if only_group and g["name"] != only_group:
